@@ -24,11 +24,13 @@ func TestCheck(t *testing.T) {
 		profile.MaxOps = 40
 	}
 	s := &pbt.Suite{ID: "C09", Level: "fault_enumeration",
-		Rule: "rapid-generated workloads (4..24 client operations: plain Set/Del or 1-4 key transactions, values 1..40000 bytes around the separation threshold, forced rotation+flush, compactions, value-log rewrite/GC, tiny manifest rewrite threshold; configuration drawn) run once on a database whose file system is the vfsx shim; a directory image (= state after kill -9) is captured after every k-th mutating file operation (k drawn from {3,5,7}; {1,2,3} in the thorough tier), after every rename/remove/truncate, optionally with the in-flight write torn at 1, len/2 and len-1 bytes, and at the final call boundary; every image is reopened and compared with the model (states after each client operation; acknowledged <= recovered <= started). Non-trivial = workload with an image taken inside a flush, compaction, manifest rewrite, value-log rotation or GC step (classified from the file operation) while at least one write had been acknowledged; distinct by case content.",
+		Rule: "rapid-generated workloads (4..24 client operations: plain Set/Del or 1-4 key transactions, values 1..40000 bytes around the separation threshold, forced rotation+flush, compactions, value-log rewrite/GC, tiny manifest rewrite threshold; configuration drawn) run once on a database whose file system is the vfsx shim; a directory image (= state after kill -9) is captured after every k-th mutating file operation (k drawn from {3,5,7}; {1,2,3} in the thorough tier), after every rename/remove/truncate, optionally with the in-flight write torn at 1, len/2 and len-1 bytes, and at the final call boundary; every image is reopened and compared with the model (states after each client operation; acknowledged <= recovered <= started). Second spec (vlogtear): value-log records are copied into a file mapping the shim cannot see, so for every operation that appended to a value-log file images are built from the directory before the operation plus a generated part of the appended bytes (first k bytes missing, only the first k present, or the page holding the head missing) and judged the same way. Non-trivial = workload with an image taken inside a flush, compaction, manifest rewrite, value-log rotation or GC step (classified from the file operation) while at least one write had been acknowledged; distinct by case content.",
 		Assumptions: []string{"process-crash model: the page cache survives, user-space buffers do not; power loss is out of scope (the properties say process crash)",
 			"single client goroutine; acked may be under- and started over-estimated by one operation, both in the sound direction",
 			"plain and transactional data live in separate databases; plain workloads do not move tables out of L0 while C01-F1c is open"},
 	}
 	pbt.Add(s, &pbt.Spec[crash.Case]{Name: "workload", Gen: gen, Run: run, Quick: 96, Thorough: 3000, Shards: 16})
+	// torn memory-mapped value-log appends (the shim cannot see stores into a mapping): see internal/crash/tear.go
+	pbt.Add(s, &pbt.Spec[crash.Case]{Name: "vlogtear", Gen: func(t *rapid.T) crash.Case { return crash.GenTear(t, profile) }, Run: run, Quick: 40, Thorough: 1500, Shards: 8})
 	s.Main(t)
 }
